@@ -28,6 +28,8 @@ type tcase struct {
 	Code   uint32 `json:"code"`   // exit code handed to CloseWithExitCode
 	// HostPanics: host functions that get an error from a nested guest call propagate it by panic (else they return normally).
 	HostPanics bool `json:"host_panics,omitempty"`
+	// Conc: concurrent in-flight calls on the same module instance (see conc.go).
+	Conc *concSpec `json:"conc,omitempty"`
 	// WithStack: the entry call is made with api.Function.CallWithStack instead of Call.
 	WithStack bool `json:"with_stack,omitempty"`
 }
@@ -92,7 +94,8 @@ type tres struct {
 	HostBad     []string `json:"host_bad,omitempty"`   // nested guest calls that did not fail after close
 	NestedErrs  []string `json:"nested_errs,omitempty"`
 	Skipped     string   `json:"skipped,omitempty"`
-	CtxErr      string   `json:"ctx_err,omitempty"` // ctx.Err() when the call returned
+	CtxErr      string   `json:"ctx_err,omitempty"`   // ctx.Err() when the call returned
+	AResults    []string `json:"a_results,omitempty"` // concurrent-calls: outcome of the finite calls
 	Wasm        []string `json:"wasm_hex,omitempty"`
 }
 
@@ -139,6 +142,11 @@ type tstate struct {
 	want    uint32
 	seen    api.Module
 	cleanup func()
+	// concurrent-calls family (see conc.go)
+	onTick0    func() // runs at the first tick of the non-terminating call
+	beforeFire func() // runs at the chosen tick, before the cause is fired
+	aStarted   chan struct{}
+	aRelease   chan struct{}
 }
 
 func (st *tstate) module(caller api.Module) api.Module {
@@ -209,8 +217,14 @@ func (st *tstate) tick(_ context.Context, caller api.Module) {
 		}
 		return
 	}
+	if n == 0 && st.onTick0 != nil {
+		st.onTick0()
+	}
 	if !r.Fired && st.tc.Moment >= 0 && n == int64(st.tc.Moment) {
 		r.Fired, r.FiredAt = true, n
+		if st.beforeFire != nil {
+			st.beforeFire()
+		}
 		st.fire(m)
 		st.awaitClosed(m)
 		if r.NeverClosed {
@@ -328,7 +342,7 @@ func (st *tstate) hop(ctx context.Context, caller api.Module) {
 func (st *tstate) hostModule(ctx context.Context, rt wazero.Runtime) error {
 	b := rt.NewHostModuleBuilder("env")
 	for name, f := range map[string]func(context.Context, api.Module){
-		"tick": st.tick, "hostloop": st.hostloop, "hostcb": st.hostcb, "bounce": st.bounce, "hop": st.hop} {
+		"tick": st.tick, "hostloop": st.hostloop, "hostcb": st.hostcb, "bounce": st.bounce, "hop": st.hop, "await": st.await} {
 		f := f
 		// no reflection on the tick path: recursion shapes make millions of ticks
 		b = b.NewFunctionBuilder().WithGoModuleFunction(api.GoModuleFunc(func(ctx context.Context, mod api.Module, _ []uint64) {
@@ -682,6 +696,9 @@ func child(mode string, in json.RawMessage) any {
 	}
 	if mode == "wd" {
 		return runWatchdog(tc, false)
+	}
+	if tc.Conc != nil {
+		return runConc(tc)
 	}
 	return runTicked(tc, false)
 }
